@@ -350,9 +350,17 @@ func (c *C) listSubscriptionsNeverPopulated() bool {
 }
 
 // R15m: the *Multi helpers acquire in ascending, de-duplicated stripe order.
-var rR15m = RuleRef{Name: "R15m", Doc: "the four *Multi lock helpers range over the result of one common function whose returned slice is filled from the keys of a map (de-duplication) and passed to sort.Ints/slices.Sort on a path that dominates the return; the stripe index is a pure function of the key (hash % len)", Run: func(c *C) {
+var rR15m = RuleRef{Name: "R15m", Doc: "the four *Multi lock helpers (directly or through a shared helper) touch only stripes whose position comes from one common position function applied to their key slice; that function returns a slice filled from the keys of a map (de-duplication) and passed to sort.Ints/slices.Sort on a path that dominates the return; the stripe index is a pure function of the key (hash % len)", Run: func(c *C) {
 	var common *ssa.Function
 	n := 0
+	isLocksField := func(ia *ssa.IndexAddr) bool {
+		if u, ok := ia.X.(*ssa.UnOp); ok {
+			if fa, ok := u.X.(*ssa.FieldAddr); ok {
+				return namedOf(fa.X.Type()) == "Locks" && fieldName(fa) == "locks"
+			}
+		}
+		return false
+	}
 	for _, name := range []string{"LockMulti", "RLockMulti", "UnLockMulti", "RUnLockMulti"} {
 		fn := c.P.Func("memdb", "Locks."+name)
 		if fn == nil {
@@ -360,74 +368,77 @@ var rR15m = RuleRef{Name: "R15m", Doc: "the four *Multi lock helpers range over 
 			continue
 		}
 		n++
-		// every mutex operation in fn is on l.locks[pos] where pos is an element of the slice returned by one call
-		var src *ssa.Call
-		ok := true
-		why := ""
-		ops := 0
-		for _, b := range fn.Blocks {
-			for _, in := range b.Instrs {
-				ci, isCall := in.(*ssa.Call)
-				if !isCall {
-					continue
-				}
-				e := c.classifyLock(ci)
-				if e == nil {
-					continue
-				}
-				ops++
-				if e.Class != "stripe" {
-					ok, why = false, "locks something that is not a stripe"
-					continue
-				}
-				// index of the stripe
-				recv := ci.Call.Args[0]
-				u, _ := recv.(*ssa.UnOp)
-				var ia *ssa.IndexAddr
-				if u != nil {
-					ia, _ = u.X.(*ssa.IndexAddr)
-				}
-				if ia == nil {
-					ok, why = false, "stripe receiver is not l.locks[pos]"
-					continue
-				}
-				// pos must be a range element of a slice produced by a call
-				var from *ssa.Call
-				backslice(ia.Index, func(v ssa.Value) bool {
-					if cl, isC := v.(*ssa.Call); isC {
-						if cf := callee(cl); cf != nil && firstParty(cf) {
-							from = cl
-						}
-						return false
+		// the helper itself and the first-party functions it calls (depth 2)
+		scope := map[*ssa.Function]bool{fn: true}
+		frontier := []*ssa.Function{fn}
+		for depth := 0; depth < 2; depth++ {
+			var next []*ssa.Function
+			for _, f := range frontier {
+				for _, a := range f.AnonFuncs {
+					if !scope[a] {
+						scope[a] = true
+						next = append(next, a)
 					}
-					return true
-				})
-				if from == nil {
-					ok, why = false, "stripe index does not come from the sorted-position helper"
-					continue
 				}
-				if src == nil {
-					src = from
-				} else if src != from {
-					ok, why = false, "stripe indexes come from different calls"
+				for _, b := range f.Blocks {
+					for _, in := range b.Instrs {
+						if ci, ok := in.(ssa.CallInstruction); ok {
+							if cf := callee(ci); cf != nil && firstParty(cf) && pkgRel(cf) == "memdb" && !scope[cf] {
+								scope[cf] = true
+								next = append(next, cf)
+							}
+						}
+					}
+				}
+			}
+			frontier = next
+		}
+		sources := map[*ssa.Function]bool{}
+		sites, bad := 0, ""
+		for f := range scope {
+			if isMethodOf(f, c.Facts.Locks, "Lock", "RLock", "UnLock", "RUnLock", "GetKeyPos") {
+				continue // the single-key API is a different matter
+			}
+			for _, b := range f.Blocks {
+				for _, in := range b.Instrs {
+					ia, ok := in.(*ssa.IndexAddr)
+					if !ok || !isLocksField(ia) {
+						continue
+					}
+					sites++
+					var from *ssa.Function
+					backslice(ia.Index, func(v ssa.Value) bool {
+						if cl, isC := v.(*ssa.Call); isC {
+							if cf := callee(cl); cf != nil && firstParty(cf) {
+								from = cf
+							}
+							return false
+						}
+						return true
+					})
+					if from == nil {
+						bad = "a stripe index in " + fnName(f) + " does not come from a position function"
+					} else {
+						sources[from] = true
+					}
 				}
 			}
 		}
-		if ops == 0 {
-			ok, why = false, "no stripe operation found"
+		why := bad
+		if sites == 0 {
+			why = "no stripe operation found in the helper or the functions it calls"
 		}
-		if src != nil {
-			cf := callee(src)
+		if len(sources) > 1 {
+			why = "stripe indexes come from different position functions"
+		}
+		for f := range sources {
 			if common == nil {
-				common = cf
-			} else if common != cf {
-				ok, why = false, "helpers use different ordering functions ("+common.Name()+" vs "+cf.Name()+")"
-			}
-			if len(src.Call.Args) < 2 || src.Call.Args[1] != fn.Params[1] {
-				ok, why = false, "the ordering function is not applied to the helper's own key slice"
+				common = f
+			} else if common != f {
+				why = "helpers use different ordering functions (" + common.Name() + " vs " + f.Name() + ")"
 			}
 		}
-		c.Add("R15m", fnName(fn), "acquires/releases only stripes listed by the common ordering function", fn.Pos(), ok, why)
+		c.Add("R15m", fnName(fn), "acquires/releases only stripes listed by the common ordering function", fn.Pos(), why == "", why)
 	}
 	c.Count("R15m_helpers", n)
 	c.Min("R15m_helpers", 4)
@@ -438,7 +449,22 @@ var rR15m = RuleRef{Name: "R15m", Doc: "the four *Multi lock helpers range over 
 	// in the common function: returned slice is sorted on every path and filled from map keys
 	sorted, dedup := true, false
 	why := ""
-	sortCalls := 0
+	fromMapRange := func(v ssa.Value) bool {
+		found := false
+		backslice(v, func(x ssa.Value) bool {
+			if nx, ok := x.(*ssa.Next); ok {
+				if rg, ok := nx.Iter.(*ssa.Range); ok {
+					if _, isMap := rg.X.Type().Underlying().(*types.Map); isMap {
+						found = true
+					}
+				}
+				return false
+			}
+			_, isCall := x.(*ssa.Call)
+			return !isCall && !found
+		})
+		return found
+	}
 	for _, b := range common.Blocks {
 		for _, in := range b.Instrs {
 			ret, isRet := in.(*ssa.Return)
@@ -449,7 +475,6 @@ var rR15m = RuleRef{Name: "R15m", Doc: "the four *Multi lock helpers range over 
 			if isNilConst(rv) {
 				continue // error path: callers lock nothing
 			}
-			// a sort call on the same slice value must dominate the return
 			found := false
 			for _, b2 := range common.Blocks {
 				for _, in2 := range b2.Instrs {
@@ -468,8 +493,7 @@ var rR15m = RuleRef{Name: "R15m", Doc: "the four *Multi lock helpers range over 
 						}
 						continue
 					}
-					sortCalls++
-					if cl.Call.Args[0] == rv && (b2.Dominates(b)) {
+					if cl.Call.Args[0] == rv && b2.Dominates(b) {
 						found = true
 					}
 				}
@@ -480,34 +504,58 @@ var rR15m = RuleRef{Name: "R15m", Doc: "the four *Multi lock helpers range over 
 					why = "a non-nil return is not dominated by sort.Ints on the returned slice"
 				}
 			}
-			// de-duplication: every element stored into the returned slice comes from ranging over a map
-			if ms, ok := rv.(*ssa.MakeSlice); ok {
-				for _, r := range *ms.Referrers() {
-					ia, ok := r.(*ssa.IndexAddr)
-					if !ok {
-						continue
+			// de-duplication: every element of the returned slice comes from ranging over a map
+			elemsOK, any := true, false
+			seen := map[ssa.Value]bool{}
+			var walk func(v ssa.Value)
+			walk = func(v ssa.Value) {
+				if seen[v] {
+					return
+				}
+				seen[v] = true
+				switch x := v.(type) {
+				case *ssa.Phi:
+					for _, e := range x.Edges {
+						walk(e)
 					}
-					for _, rr := range *ia.Referrers() {
-						st, ok := rr.(*ssa.Store)
-						if !ok {
-							continue
-						}
-						fromMap := false
-						backslice(st.Val, func(v ssa.Value) bool {
-							if nx, ok := v.(*ssa.Next); ok {
-								if rg, ok := nx.Iter.(*ssa.Range); ok {
-									if _, isMap := rg.X.Type().Underlying().(*types.Map); isMap {
-										fromMap = true
+				case *ssa.MakeSlice:
+					for _, r := range *x.Referrers() {
+						if ia, ok := r.(*ssa.IndexAddr); ok {
+							for _, rr := range *ia.Referrers() {
+								if st, ok := rr.(*ssa.Store); ok && st.Addr == ia {
+									any = true
+									if !fromMapRange(st.Val) {
+										elemsOK = false
 									}
 								}
-								return false
 							}
-							return true
-						})
-						dedup = fromMap
+						}
 					}
+				case *ssa.Slice:
+					walk(x.X)
+				case *ssa.Alloc:
+				case *ssa.Call:
+					if ap, ok := isAppend(x); ok {
+						walk(ap.Call.Args[0])
+						if elems, ok := sliceLiteralElems(ap.Call.Args[1]); ok {
+							for _, e := range elems {
+								any = true
+								if !fromMapRange(e) {
+									elemsOK = false
+								}
+							}
+						} else {
+							elemsOK = false
+						}
+						return
+					}
+					elemsOK = false
+				default:
+					elemsOK = false
 				}
 			}
+			walk(rv)
+			dedup = elemsOK && any
 		}
 	}
 	c.Add("R15m", fnName(common), "returned stripe positions are sorted ascending on every non-nil return", common.Pos(), sorted, why)
